@@ -165,6 +165,28 @@ def rule_name(r):
     return "memory:other"
 
 
+ENUM_VOCAB = [("PUSH", "0"), ("PUSH", "1"), ("PUSH", "20"), ("DUP1", None), ("DUP2", None), ("SWAP1", None), ("POP", None), ("ADD", None),
+              ("SUB", None), ("MUL", None), ("XOR", None), ("ISZERO", None), ("MSTORE", None), ("MSTORE8", None), ("MLOAD", None),
+              ("SLOAD", None), ("SSTORE", None), ("KECCAK256", None), ("AND", None)]
+ENUM_MEM = [("MSTORE", None), ("MSTORE8", None), ("MLOAD", None), ("SLOAD", None), ("SSTORE", None), ("DUP1", None), ("DUP2", None),
+            ("SWAP1", None), ("KECCAK256", None)]
+ENUM_FLAGS = [[], ["-no-simplification"]]
+ENUM_TASKS = len(ENUM_VOCAB) * len(ENUM_FLAGS) + len(ENUM_MEM)
+
+
+def enum_blocks(i):
+    """Small-scope sweep: all blocks of <= 3 instructions over ENUM_VOCAB starting with one instruction (operands -- addresses
+    included -- come from the input stack, so whether two accesses collide is decided by the sampled state), and all blocks of
+    exactly 4 instructions over the memory vocabulary."""
+    n = len(ENUM_VOCAB) * len(ENUM_FLAGS)
+    if i < n:
+        first = ENUM_VOCAB[i % len(ENUM_VOCAB)]
+        flags = ENUM_FLAGS[i // len(ENUM_VOCAB)]
+        return [[first]] + [[first, a] for a in ENUM_VOCAB] + [[first, a, b] for a in ENUM_VOCAB for b in ENUM_VOCAB], list(flags)
+    first = ENUM_MEM[i - n]
+    return [[first, a, b, c] for a in ENUM_MEM for b in ENUM_MEM for c in ENUM_MEM], []
+
+
 def task(spec_):
     i = spec_["index"]
     rw = stream(spec_["seed"], i, "workload")
@@ -180,8 +202,10 @@ def task(spec_):
     if ro.random() < 0.25:
         flags.append("-size")
     blocks = [gen_block(rw) for _ in range(6)]
+    if i < ENUM_TASKS:
+        blocks, flags = enum_blocks(i)
     op = {"argv": flags + ["-greedy"], "blocks": [AJ.items_to_text(b, 2) for b in blocks]}
-    st, out = procs.run_sut(pipe.run_specs, op, cpu_s=120)
+    st, out = procs.run_sut(pipe.run_specs, op, cpu_s=120 if i >= ENUM_TASKS else 900)
     summ = {"evals": 0, "keys": set(), "probes": {}, "faults": {}, "sim_s": 0.0, "samples": [], "harness": 0, "inconclusive": 0}
     viols = []
     if st != "ok":
